@@ -95,6 +95,17 @@ class TinyDB(DataBase):
         """
         compare_function = OPERATOR_MAPPING.get(operator)
         if compare_function is not None:
+            test_method = getattr(query_with_attribute, "test", None)
+            if operator in ("==", "!=", ">", "<", ">=", "<=") and callable(test_method):
+                # A stored value that cannot be compared with the reference value (e.g. int
+                # against str) does not match, instead of aborting the whole search.
+                def _safe_compare(value: Any) -> bool:
+                    try:
+                        return bool(compare_function(value, ref_value))
+                    except TypeError:
+                        return False
+
+                return test_method(_safe_compare)
             return compare_function(query_with_attribute, ref_value)
 
         raise ValueError(
